@@ -159,16 +159,34 @@ class OraclesMixin:
             cfg = dict(self.cfg)
             cfg.update(profile=PROFILES["none"], profile_name="none", digest_only=True, sessions=1, uuid_regime="counter", population="clean")
             inner = HistMachine(cfg)
+            iq = None
             try:
                 inner.replay(steps)
+                ipt = inner.tables.get(tid)
+                if ipt is not None and "sqlite" in ipt.real:
+                    iq = inner.call(lambda: ipt.real["sqlite"] >> pdt.build_query())
             finally:
                 inner.close()
                 self.clock.install()
-            ipt = inner.tables.get(tid)
             self.stats["isolation_replays"] += 1
             if ipt is None:
                 self.stats["isolation_cone_failed"] += 1
                 continue
+            # the SQL text of the table is a function of its own recipe, too (a table derived from
+            # one whose query was built or printed before compiles like a history-free sibling)
+            if iq is not None and iq[0] == "ok" and "sqlite" in pt.real:
+                q = self.call(lambda: pt.real["sqlite"] >> pdt.build_query())
+                self.stats["isolation_queries_compared"] += 1
+                if q[0] != "ok" or q[1] != iq[1]:
+                    self.violate(
+                        "C10",
+                        "O10.3",
+                        f"build_query of table {tid} in the shared world differs from that of its own recipe in a fresh world; cone of {len(steps)} steps: "
+                        + (f"raised {q[1]}" if q[0] != "ok" else self.first_text_diff(q[1], iq[1])),
+                        rep="sqlite",
+                        kind="query_text",
+                        tail="/".join(pt.m.verbs[-3:]),
+                    )
             for rep in sorted(pt.real):
                 now = self.observe(pt, rep, [])
                 if now[0] != "ok" or rep not in ipt.first_digest:
@@ -184,6 +202,11 @@ class OraclesMixin:
                         tail="/".join(pt.m.verbs[-3:]),
                         cone_uses_pool=any(self.step_uses_pooled_expr(st) or st["op"] == "apply_pipe" for st in steps),
                     )
+
+    @staticmethod
+    def first_text_diff(a: str, b: str) -> str:
+        k = next((i for i, (x, y) in enumerate(zip(a, b)) if x != y), min(len(a), len(b)))
+        return f"at char {k}: {a[max(0, k - 30) : k + 40]!r} vs {b[max(0, k - 30) : k + 40]!r}"
 
     def rejects_deleted_oracle(self):
         """O14.3: the run with all rejected steps deleted yields identical results for every table"""
